@@ -127,7 +127,7 @@ def run(chk, repo, tier):
     # restate C20
     from . import C20 as _dep_C20
     from ..report import SubCheck as _SubCheck
-    chk.rule("C14.R3", "the field classes hold no shared mutable state (class-level or module-level caches, in-place operators): C20's obligations re-stated — otherwise results depend on which class was used first", 50)
+    chk.rule("C14.R3", "the field classes hold no shared mutable state (class-level or module-level caches, in-place operators): C20's obligations re-stated — otherwise results depend on which class was used first", 10)
     _sub = _SubCheck()
     _err = None
     try:
@@ -135,7 +135,7 @@ def run(chk, repo, tier):
     except AnalysisError as _e:
         _err = _e
     for _rule, _construct, _key, _ok, _detail, _where in _sub.obs:
-        if True:
+        if _construct.startswith("py_ecc.fields") or _construct.startswith("py_ecc.utils") or "fields/" in str(_where):
             chk.ob("C14.R3", _construct, f"[{_rule}] {_key}", _ok, _detail, _where)
     if _err is not None and all(o[3] for o in _sub.obs):
         raise _err
@@ -209,6 +209,7 @@ MANIFEST = {
     "text": "Decides for all elements: every operator present in both files gives the same stored canonical value in the optimized "
             "and the reference class (prime, quadratic, degree-12; both curves; synthetic moduli in thorough) — by induction over "
             "expression trees, every straight-line program agrees — and sgn0 equals RFC 9380 §4.1 on every parity/zero pattern. "
-            "inv and division by extension elements are not decided.",
+            "__pow__ agrees for every exponent (both satisfy the loop invariant), inv() agrees on the quadratic extensions (both are the "
+            "ring inverse on every path); inv on the degree-12 classes is not decided.",
     "note": "Shares its obligations with C08 (each side is also compared with the quotient-ring specification).",
 }
